@@ -93,6 +93,16 @@ Theorem C37_gen_close_paths :
 Proof. vm_compute. repeat split; reflexivity. Qed.
 Print Assumptions C37_gen_close_paths.
 
+(* every access path tests "closed" and returns BEFORE it calls dlsym(): cdlopen_fetch (out-of-line) and
+   dl_load_function / dl_read_variable / dl_write_variable (in-line).  The model's accesses are defined from
+   these facts (Model.v: usable / unchecked): without the early test, dlsym(NULL, name) searches the
+   process-global scope and a closed lib object would serve globally resolvable symbols — so
+   C37_after_close_refused is about the current text here too. *)
+Theorem C37_gen_closed_test_precedes_dlsym :
+  ool_fetch_checks_first = true /\ inline_checks_first = true.
+Proof. split; reflexivity. Qed.
+Print Assumptions C37_gen_closed_test_precedes_dlsym.
+
 (* non-vacuity: a history that caches a function, a variable and an address, closes, and
    tries everything again, in both modes; the other lib keeps working *)
 Example C37_example :
